@@ -18,14 +18,43 @@ func init() {
 	specialCharReplacer = strings.NewReplacer(pairs...)
 }
 
-// espace special CSS char
-func escape(s string) string { return specialCharReplacer.Replace(s) }
+// espace special CSS char, so that the result is parsed back as the name s
+func escape(s string) string {
+	var b strings.Builder
+	for i, r := range s {
+		if r < 0x20 || r == 0x7f || (i == 0 && '0' <= r && r <= '9') {
+			// control characters and a leading digit need an hexadecimal escape,
+			// terminated by one space
+			fmt.Fprintf(&b, "\\%x ", r)
+		} else {
+			b.WriteString(specialCharReplacer.Replace(string(r)))
+		}
+	}
+	return b.String()
+}
+
+// escapeString escapes the content of a double-quoted string
+func escapeString(s string) string {
+	var b strings.Builder
+	for _, r := range s {
+		switch {
+		case r == '"' || r == '\\':
+			b.WriteByte('\\')
+			b.WriteRune(r)
+		case r < 0x20 && r != '\t' || r == 0x7f:
+			fmt.Fprintf(&b, "\\%x ", r)
+		default:
+			b.WriteRune(r)
+		}
+	}
+	return b.String()
+}
 
 func (c tagSelector) String() string {
 	if c.tag != 0 {
 		return c.tag.String()
 	}
-	return c.tagS
+	return escape(c.tagS)
 }
 
 func (c idSelector) String() string {
@@ -41,7 +70,7 @@ func (c attrSelector) String() string {
 	if c.operation == "#=" {
 		val = c.regexp.String()
 	} else if c.operation != "" {
-		val = fmt.Sprintf(`"%s"`, val)
+		val = fmt.Sprintf(`"%s"`, escapeString(val))
 	}
 
 	ignoreCase := ""
@@ -49,7 +78,7 @@ func (c attrSelector) String() string {
 		ignoreCase = " i"
 	}
 
-	return fmt.Sprintf(`[%s%s%s%s]`, c.key, c.operation, val, ignoreCase)
+	return fmt.Sprintf(`[%s%s%s%s]`, escape(c.key), c.operation, val, ignoreCase)
 }
 
 func (c relativePseudoClassSelector) String() string {
